@@ -81,7 +81,7 @@ end
 
 /-! ### list facts about the position of a node in the order -/
 
-theorem takeWhile_ne_append {l1 l2 : List Name} {v : Name} (hv : v ∉ l1) :
+theorem IdAux.takeWhile_ne_append {l1 l2 : List Name} {v : Name} (hv : v ∉ l1) :
     (l1 ++ v :: l2).takeWhile (· ≠ v) = l1 := by
   induction l1 with
   | nil => simp [List.takeWhile]
@@ -92,7 +92,7 @@ theorem takeWhile_ne_append {l1 l2 : List Name} {v : Name} (hv : v ∉ l1) :
     simp only [ne_eq, decide_not] at this
     simp [List.takeWhile, ha, this]
 
-theorem exists_split_at {order : List Name} {v : Name} (hv : v ∈ order) :
+theorem IdAux.exists_split_at {order : List Name} {v : Name} (hv : v ∈ order) :
     ∃ l1 l2, order = l1 ++ v :: l2 ∧ v ∉ l1 := by
   induction order with
   | nil => cases hv
@@ -111,7 +111,7 @@ theorem exists_split_at {order : List Name} {v : Name} (hv : v ∈ order) :
       · exact hn hc
 
 /-- the index used by `p_parents` splits the order at the node -/
-theorem order_split {order l1 l2 : List Name} {v : Name} (h : order = l1 ++ v :: l2) (hv : v ∉ l1) :
+theorem IdAux.order_split {order l1 l2 : List Name} {v : Name} (h : order = l1 ++ v :: l2) (hv : v ∉ l1) :
     let i := (order.takeWhile (· ≠ v)).length
     order.take i = l1 ∧ order.drop i = v :: l2 ∧ order.drop (i + 1) = l2 := by
   subst h
